@@ -263,4 +263,11 @@ MUTATIONS += [
     dict(id="q-kron-forward-loop-names", file=TINNER, old="            y0 = y0.unsqueeze(dim=-1)  # (F, B, K, 1).\n            y1 = x[:, i].unsqueeze(dim=-2)  # (F, B, 1, Ki).", new="            y0 = y0[..., None]  # (F, B, K, 1).\n            y1 = x[:, i].unsqueeze(dim=2)  # (F, B, 1, Ki).", expect={}, quiet=True),
     dict(id="l2-kron-perm-inverse", patch="seeded/C04b/patch.diff", expect={"C04": ["L2:cirkit.symbolic.operators.multiply_kronecker_layers:permutation"]}),
     dict(id="l2-kron-perm-axes", file=OPS, old="axes=sum(((1 + a, 1 + a + arity) for a in range(arity)), start=(0,))", new="axes=sum(((1 + a + arity, 1 + a) for a in range(arity)), start=(0,))", expect={"C04": ["L2:cirkit.symbolic.operators.multiply_kronecker_layers:permutation"]}),
+    # ---- more behaviour-preserving refactors of interpreted code
+    dict(id="q-cat-logpart-keepdim-transpose", file=TINPUT, old="        return torch.logsumexp(logits, dim=2).unsqueeze(dim=1)", new="        return torch.logsumexp(logits, dim=2, keepdim=True).transpose(1, 2)", expect={}, quiet=True),
+    dict(id="q-sum-forward-einops", file=TINNER, old="        x = x.permute(0, 2, 1, 3).flatten(start_dim=2)\n        weight = self.weight()\n        return self.semiring.einsum(\n            \"fbi,foi->fbo\"", new="        x = E.rearrange(x, \"f h b k -> f b (h k)\")\n        weight = self.weight()\n        return self.semiring.einsum(\n            \"fbi,foi->fbo\"", expect={}, quiet=True),
+    dict(id="q-constant-expand-minus-one", file=TINPUT, old="        value = value.unsqueeze(dim=1).expand(value.shape[0], batch_size, value.shape[1])", new="        value = value[:, None, :].expand(-1, batch_size, -1)", expect={}, quiet=True),
+    dict(id="q-outer-reshape", file=TNODES, old="        x = x1 * x2  # (F, K1, K2, ..., Ki1, Ki2, ..., Kn)\n        x = x.view(self.num_folds, *self.shape)  # (F, K1, K2, ..., Ki1 * Ki2, ..., Kn)", new="        x = x1 * x2  # (F, K1, K2, ..., Ki1, Ki2, ..., Kn)\n        x = x.reshape(x.shape[0], *self.shape)  # (F, K1, K2, ..., Ki1 * Ki2, ..., Kn)", expect={}, quiet=True),
+    dict(id="q-kron-perm-helper", file=OPS, old="    arity = max(sl1.arity, sl2.arity)\n    kron_sl = KroneckerLayer(sl1.num_input_units * sl2.num_input_units, arity=arity)", new="    arity = sl1.arity if sl1.arity >= sl2.arity else sl2.arity\n    kron_sl = KroneckerLayer(sl1.num_input_units * sl2.num_input_units, arity=arity)", expect={}, quiet=True),
+    dict(id="q-einsum-rewrite-names", file="cirkit/backend/torch/optimization/parameters.py", old="    del reduce_idx[reduce_dim]\n", new="    reduce_idx = reduce_idx[:reduce_dim] + reduce_idx[reduce_dim + 1 :]\n", expect={}, quiet=True),
 ]
